@@ -177,6 +177,7 @@ func c03Framing(c *core.Ctx) {
 
 	// ---- (b) SetPayload sites
 	bSites := 0
+	bPkgs := map[string]bool{}
 	eachFunc(c, func(pkg *packages.Package, fd *ast.FuncDecl) {
 		if relPkg(pkg.PkgPath) == c03hp || strings.HasPrefix(relPkg(pkg.PkgPath), c03hp+"/") {
 			return
@@ -244,6 +245,7 @@ func c03Framing(c *core.Ctx) {
 			}
 			for _, s := range sites {
 				bSites++
+				bPkgs[pkg.PkgPath] = true
 				cons := c03fnName(top) + sprintf("|SetPayload#%d", s.ord)
 				if central != "" {
 					c.Discharge("R-C03-6", cons, pos(c, s.call), "discharged centrally: "+central)
@@ -278,7 +280,10 @@ func c03Framing(c *core.Ctx) {
 			}
 		}
 	})
-	c.RequireCount("R-C03-6", "(*httpprot.Response).SetPayload call sites outside httpprot", bSites, 9)
+	// vacuity: counted by role — the HTTP filter packages that replace a response payload (call
+	// sites may legitimately merge into shared helpers inside a package)
+	c.RequireCount("R-C03-6", "packages with (*httpprot.Response).SetPayload call sites outside httpprot", len(bPkgs), 5)
+	c.RequireCount("R-C03-6", "(*httpprot.Response).SetPayload call sites outside httpprot", bSites, 5)
 }
 
 // c03callersPair reports whether every call site of the function top completes the framing
